@@ -199,6 +199,20 @@ directive @transform(op: String!) repeatable on FIELD
                             let field_node = field.node;
                             let field_name = Arc::from(field_node.name.node.to_string());
 
+                            let mut parameter_names: BTreeSet<&str> = BTreeSet::new();
+                            for parameter in &field_node.arguments {
+                                let parameter_name = parameter.node.name.node.as_ref();
+                                if !parameter_names.insert(parameter_name) {
+                                    return Err(
+                                        InvalidSchemaError::DuplicateFieldParameterDefinition(
+                                            type_name.to_string(),
+                                            field_node.name.node.to_string(),
+                                            parameter_name.to_string(),
+                                        ),
+                                    );
+                                }
+                            }
+
                             match fields
                                 .insert_or_error((type_name.clone(), field_name), field_node)
                             {
